@@ -141,7 +141,7 @@ Definition cell_err_dc (o : bop) (e1 c : b64) : b64 :=
 Definition cell_err_dd (o : bop) (c1 c2 : b64 * b64) : b64 :=
   eval B64A (err_dd o) (mkenv (fst c1) (snd c1) (fst c2) (snd c2)).
 
-(* exception classes: 0 = TypeError, 1 = ValueError *)
+(* exception classes: 0 = TypeError, 1 = ValueError, 9 = any other *)
 Definition binop (o : bop) (d : ds) (r : rhs) : res ds :=
   match r with
   | RNum c =>
@@ -198,7 +198,8 @@ Definition run_op (d : ds) (o : op) : res ds :=
   match o with
   | OBin b r => binop b d r
   | OCopy => Ok (copy d)
-  | OMask m => Ok (mask_ds d m)
+  | OMask m => if Nat.eqb (List.length m) (List.length (value d)) then Ok (mask_ds d m)
+               else Raise 9%nat       (* numpy.ma.MaskError *)
   | OSqueeze => Ok (squeeze d)
   end.
 
@@ -246,13 +247,6 @@ Definition wf_rhs (r : rhs) : Prop :=
   | RNum _ => True
   | RArr sh a => List.length a = prod sh
   | RDs d => wf d
-  end.
-
-Definition wf_op (n : nat) (o : op) : Prop :=
-  match o with
-  | OBin _ r => wf_rhs r
-  | OMask m => True
-  | _ => True
   end.
 
 (* "not negative": NaN, zeros of either sign and positive numbers *)
@@ -326,6 +320,13 @@ Definition ds_match (m i : ds) : bool :=
 
 (* literals of the generated cases files *)
 Definition fl (l : list Z) : list b64 := map of_bits l.
+
+(* printable form of a model result, for replays *)
+Definition ds_show (d : ds) :=
+  (shape d, map to_bits (value d), map to_bits (error d), mask d,
+   map (fun p => (fst p, map to_bits (snd p))) (bins d), name d, what d).
+Definition res_show (r : res ds) :=
+  match r with Ok d => inl (ds_show d) | Raise c => inr c end.
 
 Definition is_fresh (s : src) : bool := match s with Fresh => true | Shared => false end.
 
